@@ -271,6 +271,27 @@ where
                     Err(e) => return Outcome::fail(json!({}), format!("the library cannot decode the reference-made signature: {e}")),
                 }
                 o.extra += 1;
+                // C02: the signature moved outside the subgroup (+ small-order point) through every decoder must not verify
+                {
+                    let shifted = crate::codecs::points::shifted(&enc_s::<C>(&pt));
+                    let tagb = match label.as_str() { "Basic" => 0u8, "Aug" => 1, _ => 2 };
+                    let mut sb = vec![tagb];
+                    sb.extend_from_slice(&shifted);
+                    let jn = match label.as_str() { "Basic" => "Basic", "Aug" => "MessageAugmentation", _ => "ProofOfPossession" };
+                    let decoded: Vec<Signature<C>> = [
+                        Signature::<C>::try_from(sb.as_slice()).ok(),
+                        serde_json::from_str::<Signature<C>>(&format!("{{\"{}\":\"{}\"}}", jn, hex::encode(&shifted))).ok(),
+                    ]
+                    .into_iter()
+                    .flatten()
+                    .collect();
+                    for s2 in decoded {
+                        if s2.verify(&pk, &msg).is_ok() {
+                            return Outcome::fail(json!({}), "a signature moved outside the subgroup decodes and still verifies");
+                        }
+                    }
+                    o.extra += 2;
+                }
                 // C01: still verifies after key, public key and signature went through every encoding
                 let k = geti(&v["pk"], "k");
                 match crate::codec::carry_through::<C>(&lib.sk::<C>(k), &pk, &sig, &msg) {
@@ -373,6 +394,25 @@ where
                 return Outcome::fail(json!({"lib": got.0, "ref": rv}), "decision differs from the independent PopVerify");
             }
             o.extra += 1;
+            if getb(v, "honest") {
+                // a change of the proof outside the subgroup (proof + small-order point, through every decoder):
+                // it must not decode, and if it ever does it must not verify
+                let shifted = crate::codecs::points::shifted(&enc_s::<C>(&pt));
+                let decoded: Vec<ProofOfPossession<C>> = [
+                    ProofOfPossession::<C>::try_from(shifted.as_slice()).ok(),
+                    serde_bare::from_slice::<ProofOfPossession<C>>(&shifted).ok(),
+                    serde_json::from_str::<ProofOfPossession<C>>(&format!("\"{}\"", hex::encode(&shifted))).ok(),
+                ]
+                .into_iter()
+                .flatten()
+                .collect();
+                for p2 in decoded {
+                    if p2.verify(pk).is_ok() {
+                        return Outcome::fail(json!({}), "a proof of possession moved outside the subgroup decodes and still verifies");
+                    }
+                }
+                o.extra += 3;
+            }
             o
         }
         "Aggregate" | "Accumulate" => {
